@@ -122,8 +122,10 @@ func newLexer(env *interp.ExecEnv, name string, r io.RuneScanner) *lexer {
 }
 
 func (l *lexer) Lex(lval *yySymType) int {
+	verifPoint(1)
 	switch tok := (<-l.token).(type) {
 	case token:
+		verifPoint(2)
 		l.last.Store(tok.Pos())
 		lval.token = tok
 		return tok.typ
@@ -137,6 +139,7 @@ func (l *lexer) Lex(lval *yySymType) int {
 
 func (l *lexer) run() {
 	defer func() {
+		verifPoint(8)
 		close(l.token)
 		close(l.done)
 
@@ -1710,11 +1713,13 @@ func (l *lexer) emit(typ int) {
 	}
 	l.word = nil
 	l.emitted = true
+	verifPoint(3)
 	select {
 	case l.token <- tok:
 	case <-l.cancel:
 		panic(bailout)
 	}
+	verifPoint(4)
 	l.mark(0)
 }
 
@@ -1777,6 +1782,7 @@ func (l *lexer) unread() {
 
 // wait stops the lexer goroutine and waits for it to exit.
 func (l *lexer) wait() {
+	verifPoint(9)
 	l.mu.Lock()
 	select {
 	case <-l.cancel:
@@ -1792,6 +1798,7 @@ func (l *lexer) Error(e string) {
 }
 
 func (l *lexer) error(pos ast.Pos, msg string) {
+	verifPoint(7)
 	l.mu.Lock()
 	defer l.mu.Unlock()
 
@@ -1862,6 +1869,7 @@ func (h *heredoc) inc() {
 }
 
 func (h *heredoc) push(r *ast.Redir) {
+	verifPoint(5)
 	h.mu.Lock()
 	h.stack = append(h.stack, r)
 	h.mu.Unlock()
@@ -1884,6 +1892,7 @@ func (h *heredoc) pop(cancel <-chan struct{}) *ast.Redir {
 		}
 		h.mu.Unlock()
 		// wait
+		verifPoint(6)
 		select {
 		case <-h.c:
 		case <-cancel:
